@@ -42,7 +42,7 @@ def enum_decl(ed: EnumDef, derive_debug=False, doc=False, vis='pub'):
     dead_k = 0
     for d, live in allv:
         pre = ''
-        if doc:
+        if doc or (not ed.alias and (d + len(allv)) % 4 == 2):
             pre += f"/// variant {d}\n    "
         if ed.exhaustive == 'conditional':
             # live variants of conditional enums alternate between plain and #[cfg(all())]
